@@ -147,5 +147,58 @@ def error_discipline(ck, prog):
     r.note('%d calls of fallible functions examined in %s' % (n, ', '.join(sorted(files))))
 
 
+def onebit_stores(ck, prog):
+    pid = ck.pid
+    files = anchor_files(pid)
+    r = ck.rule(pid + '.B', 'one-bit flags in this property\'s files are stored normalised: what is assigned to a '
+                '1-bit bit-field is a truth value (0/1 constant, comparison, negation, another 1-bit flag) or an '
+                'expression of type dbus_bool_t, never a masked word such as `flags & K`', 'TS',
+                breaks='a mask with a bit above bit 0 is truncated to 0 by the bit-field: the flag silently stays '
+                       'clear (e.g. DO_NOT_QUEUE / ALLOW_REPLACEMENT of a name owner)', floor=1)
+    bits = set()
+    for rn, rec in prog.records.items():
+        for f in rec['fields']:
+            if f.get('bits') == 1:
+                bits.add((rn, f['name']))
+
+    def boolish(e):
+        k = e.get('k')
+        if k == 'int':
+            return e['v'] in (0, 1)
+        if k in ('paren', 'cast') and isinstance(e.get('e'), dict):
+            return boolish(e['e'])
+        if k == 'un' and e.get('op') == '!':
+            return True
+        if k == 'bin' and e.get('op') in ('==', '!=', '<', '>', '<=', '>=', '&&', '||'):
+            return True
+        if k == 'member' and (e.get('rec'), e.get('field')) in bits:
+            return True
+        if (e.get('t') or '') in ('dbus_bool_t', '_Bool', 'bool') and k in ('ref', 'call', 'member'):
+            return True
+        return False
+    n = 0
+    for f in prog.funcs.values():
+        if f.file not in files or not prog.is_production(f):
+            continue
+        for b, i, ev in f.events():
+            if ev['ev'] != 'assign' or ev['e'].get('op') != '=':
+                continue
+            lhs, rhs = ev['e']['l'], ev['e']['r']
+            if lhs.get('k') != 'member' or (lhs.get('rec'), lhs.get('field')) not in bits:
+                continue
+            n += 1
+            key = '%s:%s.%s' % (f.name, lhs.get('rec'), lhs.get('field'))
+            if boolish(rhs):
+                r.ok(key)
+            else:
+                from .cfg import estr
+                r.violation(key, f.name, f.file, ev['line'],
+                            'the 1-bit field %s.%s is assigned %s, which is not a normalised truth value: any bit '
+                            'other than bit 0 is lost' % (lhs.get('rec'), lhs.get('field'), estr(rhs)[:80]))
+    if n == 0:
+        r.skip('no one-bit flag is written in %s' % ', '.join(sorted(files))) if hasattr(r, 'skip') else None
+
+
 def run(ck, prog):
     error_discipline(ck, prog)
+    onebit_stores(ck, prog)
